@@ -208,6 +208,83 @@ func rotChild(seed int64, dir string) (out raceOut) {
 	return
 }
 
+// fsyncChild: ONE fsync of the active fraction's docs (or meta) file fails, later ones succeed.  The writers of that
+// batch must get the error (not an acknowledgement); every later bulk must be acknowledged within a bound and become
+// visible - a transient I/O error must not stop ingestion for good.
+func fsyncChild(seed int64, dir string) (out raceOut) {
+	add := func(class, what string) { out.Findings = append(out.Findings, finding2{class, what}) }
+	conf.IndexWorkers = 2
+	conf.SkipFsync = false // the group-commit path of FileWriter
+	fm := fracmanager.NewFracManager(&fracmanager.Config{DataDir: dir, FracSize: 1 << 30, TotalSize: 1 << 40, CacheSize: 1 << 26,
+		ShouldReplay: false, MaintenanceDelay: time.Hour})
+	if err := fm.Load(context.Background()); err != nil {
+		add("harness", err.Error())
+		return
+	}
+	fm.Start()
+	rng := vh.NewRNG(seed)
+	k := 0
+	var acked []doc
+	mk := func() *bulk {
+		k++
+		var ds []doc
+		for j := 0; j < rng.Range(1, 4); j++ {
+			ds = append(ds, mkDoc(k, j, uint64(1000+k), uint64(k*1000+j+1), []int{0, k % 3}))
+		}
+		return mkBulk(ds)
+	}
+	appendBounded := func(b *bulk, what string) bool {
+		ctx, cancel := context.WithTimeout(context.Background(), 8*time.Second)
+		defer cancel()
+		err := fm.Append(ctx, b.docsB, b.metaB)
+		out.Bulks++
+		if err != nil {
+			add("ingest-stuck-after-transient-fsync-error", fmt.Sprintf("%s: FracManager.Append did not get the bulk acknowledged within 8s (%v) although only ONE earlier fsync had failed", what, err))
+			return false
+		}
+		acked = append(acked, b.docs...)
+		return true
+	}
+	for _, meta := range []bool{false, true} {
+		name := map[bool]string{false: "docs", true: "meta"}[meta]
+		if !appendBounded(mk(), "before the fault") {
+			return
+		}
+		fm.WaitIdle()
+		a := fracmanager.VerifC07ActiveOf(fm)
+		if a == nil {
+			add("harness", "no active fraction")
+			return
+		}
+		frac.VerifC07FailOneSync(a, meta, 1)
+		fb := mk()
+		if err := fracmanager.VerifC07WriterAppend(fm, fb.docsB, fb.metaB); err == nil {
+			add("ack-after-failed-fsync", fmt.Sprintf("the fsync of the %s file failed but the writer of that batch was acknowledged", name))
+		}
+		for i := 0; i < 3; i++ {
+			if !appendBounded(mk(), fmt.Sprintf("bulk %d after the %s fsync fault", i+1, name)) {
+				return
+			}
+		}
+	}
+	waitIndexed(fm, len(acked))
+	got, err := searchAll(fm, "T0")
+	out.Searches++
+	if err != nil {
+		add("search-error", err.Error())
+	} else {
+		for _, d := range acked {
+			if !got[d.id()] {
+				add("lost-append", fmt.Sprintf("acknowledged document %s (after a transient fsync error) is not found", d.idStr()))
+				break
+			}
+		}
+	}
+	out.Fractions = len(fm.GetAllFracs())
+	fm.Stop()
+	return
+}
+
 func sealedPoolChild(seed int64, dir string) (out raceOut) {
 	debug.SetGCPercent(-1) // a GC would empty the pools between the failed search and the next providers
 	add := func(class, what string) {
